@@ -88,6 +88,7 @@ struct Opts {
     int unitSystem = -1;            // -1 random, 0 METRIC, 1 FIELD, 2 LAB
     bool histWells = true;
     bool wpimult = true;            // WPIMULT is applied when its report step closes (C04 exempts it)
+    bool actionWpimult = false;     // WPIMULT inside ACTIONX bodies (two more body templates; changes the random stream, so opt-in)
 };
 
 struct Model {
@@ -382,7 +383,10 @@ private:
         bool placeholder = rng.chance(0.4);
         auto wn = [&](const WellM* x) { return placeholder ? std::string("'?'") : q(x->name); };
         b.perWell = placeholder;
-        switch (rng.below(15)) {
+        switch (rng.below(opt.actionWpimult ? 18 : 15)) {
+        // the well-wide form is only noted by its handler and applied when the action has been handled; the form naming a connection at once
+        case 15: case 16: b.name = "WPIMULT"; b.records = {wn(w) + " " + fmtd(0.5 * (1 + rng.below(5))) + " /"}; return true;
+        case 17: { if (w->ks.empty()) return false; b.perWell = false; b.name = "WPIMULT"; b.records = {q(w->name) + " " + fmtd(0.5 * (1 + rng.below(5))) + " " + std::to_string(w->i) + " " + std::to_string(w->j) + " " + std::to_string(w->ks[rng.below(w->ks.size())]) + " /"}; return true; }
         case 0: b.name = "WELOPEN"; b.records = {wn(w) + " '" + (rng.chance(0.5) ? "SHUT" : "OPEN") + "' /"}; return true;
         case 1: { WellM* p = anyProducer(); if (!p) return false; if (placeholder) { b.perWell = false; } b.name = "WCONPROD"; b.records = {q(p->name) + " 'OPEN' 'ORAT' " + rate() + " 4* " + bhpLow() + " /"}; return true; }
         case 2: { WellM* p = anyProducer(); if (!p) return false; b.perWell = false; b.name = "WELTARG"; static const char* t[] = {"ORAT", "WRAT", "GRAT", "LRAT", "BHP"}; std::string m = t[rng.below(5)]; b.records = {q(p->name) + " '" + m + "' " + (m == "BHP" ? bhpLow() : rate()) + " /"}; return true; }
